@@ -57,7 +57,7 @@ def host_firewall_probe(ctx):
     from . import envfacts
     p = envfacts.prop_term(ctx, "nasim.scenarios.scenario", "Scenario", "address_space")
     txt = [p.show(t) for _, t in p.returns]
-    if txt != ["list(self.scenario_dict['host'].keys())"]:
+    if txt != ["list(self.scenario_dict['host'])"]:
         return None, f"Scenario.address_space is {txt}"
     lf = loaderfacts.facts(ctx)
     sd, _ = lf.scenario_dict()
